@@ -55,21 +55,21 @@ Definition add_res (i : nat) (s : rt) : rt :=
   mkRt (qlib s) (early s) (normal s) (late s) (i :: ledger s) (threads s) (proxies s) (created s) (dirty s) (atexits s) (fault s) (ran s).
 
 (* a subsystem's init function / first use: create its resource, register its cleanup *)
-Definition bring_up (i : nat) (r : row) (s : rt) : rt :=
-  let s1 := add_res i s in
-  if r_registers r then push (r_stage r) i s1 else s1.
-
-Fixpoint init_rows (tbl : table) (i : nat) (s : rt) : rt :=
-  match tbl with
-  | [] => s
-  | r :: tl => init_rows tl (S i) (if r_lazy r then s else bring_up i r s)
+Definition bring_up (tbl : table) (s : rt) (i : nat) : rt :=
+  match nth_error tbl i with
+  | None => s
+  | Some r => let s1 := add_res i s in if r_registers r then push (r_stage r) i s1 else s1
   end.
+
+Definition is_lazy (tbl : table) (i : nat) : bool := match nth_error tbl i with Some r => r_lazy r | None => true end.
+(* the rows brought up on the qthread_initialize path, in call order *)
+Definition init_ids (tbl : table) : list nat := filter (fun i => negb (is_lazy tbl i)) (seq 0 (length tbl)).
 
 (* qthread_initialize with w workers in total; `atexit_each`: atexit(qthread_finalize) on every call (else once per process) *)
 Definition initialize (tbl : table) (atexit_each : bool) (w : nat) (s : rt) : rt :=
   if qlib s then s                                       (* redundant call *)
   else
-    let s1 := init_rows tbl 0 (mkRt true [] [] [] (core_id tbl :: ledger s) (pred w) (proxies s) (created s) (dirty s)
+    let s1 := fold_left (bring_up tbl) (init_ids tbl) (mkRt true [] [] [] (core_id tbl :: ledger s) (pred w) (proxies s) (created s) (dirty s)
                                     (if atexit_each then S (atexits s) else match atexits s with 0 => 1 | n => n end)
                                     (fault s) []) in
     s1.
@@ -89,7 +89,7 @@ Definition use (tbl : table) (i : nat) (s : rt) : rt :=
        | Some r =>
            if mem i (dirty s) then set_fault s
            else
-             let s1 := if r_lazy r then (if mem i (created s) then s else bring_up i r (mark_created i s)) else s in
+             let s1 := if r_lazy r then (if mem i (created s) then s else bring_up tbl (mark_created i s) i) else s in
              if r_io r then add_proxy s1 else s1
        end.
 
